@@ -223,7 +223,7 @@ def cases(tier, seed):
     return C
 
 
-BUF_THEOREMS = ['C08_buf_exact', 'C08_buf_exact_init', 'C08_buf_merge', 'C08_buf_handout', 'C08_buf_fifo', 'C07_buf_frame',
+BUF_THEOREMS = ['C08_buf_exact', 'C08_buf_exact_init', 'C08_buf_merge', 'C08_buf_handout', 'C08_buf_fifo', 'C07_buf_sound', 'C07_buf_frame',
                 'C08_buf_fraction']
 
 
